@@ -4,6 +4,7 @@ package main
 
 import (
 	"fmt"
+	"strings"
 )
 
 func (p *Program) specCtx(vars map[string]TV) *EvalCtx {
@@ -38,9 +39,14 @@ func (p *Program) RegisterSpecs() (err error) {
 	for _, f := range p.Spec.Fns {
 		d := &FunDecl{Name: f.Name, Rec: f.Rec, Opaque: f.Opaque}
 		vars := map[string]TV{}
+		skipped := false
 		for _, pv := range f.Params {
 			s, ty, err := p.sortFromText(pv.Type, nil)
 			if err != nil {
+				if strings.Contains(err.Error(), "unknown package") {
+					skipped = true
+					break
+				}
 				return fmt.Errorf("%s:%d: fn %s: %v", f.File, f.Line, f.Name, err)
 			}
 			d.Params = append(d.Params, BVar{pv.Name, s})
@@ -51,8 +57,16 @@ func (p *Program) RegisterSpecs() (err error) {
 				vars[pv.Name] = tvTerm(t)
 			}
 		}
+		if skipped {
+			p.SkippedSpecs = append(p.SkippedSpecs, "fn "+f.Name)
+			continue
+		}
 		s, _, err := p.sortFromText(f.Ret, nil)
 		if err != nil {
+			if strings.Contains(err.Error(), "unknown package") {
+				p.SkippedSpecs = append(p.SkippedSpecs, "fn "+f.Name)
+				continue
+			}
 			return fmt.Errorf("%s:%d: fn %s: %v", f.File, f.Line, f.Name, err)
 		}
 		d.Ret = s
@@ -70,6 +84,11 @@ func (p *Program) RegisterSpecs() (err error) {
 			defer func() {
 				if r := recover(); r != nil {
 					if e, ok := r.(evalError); ok {
+						if len(p.SkippedSpecs) > 0 && (strings.Contains(e.msg, "unknown function") || strings.Contains(e.msg, "unknown package") || strings.Contains(e.msg, "unknown identifier")) {
+							p.SkippedSpecs = append(p.SkippedSpecs, "body of fn "+pd.f.Name)
+							delete(p.U.Funs, pd.f.Name)
+							return
+						}
 						panic(evalError{fmt.Sprintf("%s:%d: fn %s: %s", pd.f.File, pd.f.Line, pd.f.Name, e.msg)})
 					}
 					panic(r)
@@ -91,6 +110,9 @@ func (p *Program) RegisterSpecs() (err error) {
 		}
 		gs, _, err := p.sortFromText(g.SortText, nil)
 		if err != nil {
+			if strings.Contains(err.Error(), "unknown package") {
+				continue
+			}
 			return fmt.Errorf("ghost field %s.%s: %v", g.TypeText, g.Name, err)
 		}
 		heapSorts[ghostHeapName(gt, g.Name)] = ArraySort(SInt, gs)
@@ -98,6 +120,9 @@ func (p *Program) RegisterSpecs() (err error) {
 	for _, g := range p.Spec.GhostVars {
 		gs, _, err := p.sortFromText(g.Type, nil)
 		if err != nil {
+			if strings.Contains(err.Error(), "unknown package") {
+				continue
+			}
 			return fmt.Errorf("ghost var %s: %v", g.Name, err)
 		}
 		heapSorts["GV$"+g.Name] = gs
@@ -107,6 +132,10 @@ func (p *Program) RegisterSpecs() (err error) {
 			defer func() {
 				if r := recover(); r != nil {
 					if e, ok := r.(evalError); ok {
+						if strings.Contains(e.msg, "unknown function") || strings.Contains(e.msg, "unknown package") || strings.Contains(e.msg, "unknown identifier") || strings.Contains(e.msg, "unknown type") {
+							p.SkippedSpecs = append(p.SkippedSpecs, "axiom "+a.Name)
+							return
+						}
 						panic(evalError{fmt.Sprintf("%s:%d: axiom %s: %s", a.File, a.Line, a.Name, e.msg)})
 					}
 					panic(r)
